@@ -405,7 +405,8 @@ impl TypeContext {
         param_ty: &hir::Type<P>,
         method: &hir::Method,
     ) {
-        let linked = match &param_ty {
+        // `Option<Struct<'a, 'b>>` implies the same bounds as `Struct<'a, 'b>`
+        let linked = match param_ty.unwrap_option() {
             hir::Type::Opaque(p) => p.link_lifetimes(self),
             hir::Type::Struct(p) => p.link_lifetimes(self),
             _ => return,
